@@ -266,6 +266,22 @@ func (in inspector) HasAttributes(_ context.Context, ia addr.IA, _ trust.Attribu
 	return false, nil
 }
 
+// faultyRevCache wraps the real cache; Get fails for the chosen keys (never for a key that has an
+// active revocation: what should happen then is not determined by the statement).
+type faultyRevCache struct {
+	revcache.RevCache
+	fail map[string]bool
+}
+
+var errRevLookup = errors.New("revocation lookup failed")
+
+func (f faultyRevCache) Get(ctx context.Context, k revcache.Key) (*path_mgmt.RevInfo, error) {
+	if f.fail[fmt.Sprintf("%s#%d", iaStr(k.IA), k.IfID)] {
+		return nil, errRevLookup
+	}
+	return f.RevCache.Get(ctx, k)
+}
+
 type nextHopper struct{ missing map[uint16]bool }
 
 func (n nextHopper) UnderlayNextHop(id uint16) *net.UDPAddr {
@@ -313,7 +329,7 @@ func main() {
 	e := vlib.Init()
 	e.Rule = "random topologies (2-3 ISDs, 1-3 cores each, 0-4 non-core ASes with 1-2 parents, random core links); all up/down/core " +
 		"segments with random timestamps/expiries (25% expired, 20% hops shorter; never within 20 s of now); revocation histories " +
-		"(expired, active, superseded) on interfaces of the segments; 6 lookups per topology from a random AS to a random AS / ISD " +
+		"(expired, active, superseded) on interfaces of the segments, in half of the lookups the revocation cache fails for ~35% of the unrevoked interfaces; 6 lookups per topology from a random AS to a random AS / ISD " +
 		"wildcard / itself / ISD 0, real Pather + real Combine + real memrevcache + real MultiSegmentSplitter (with and without " +
 		"inspector, inspector errors); splitter lines for every lookup; non-trivial = lookup reached the combinator"
 	ctx := context.Background()
@@ -452,7 +468,20 @@ func main() {
 			}
 			var seenReqs segfetcher.Requests
 			rs := resolver{segs: segs, fail: r.Chance(3), reqs: &seenReqs}
-			p := &segfetcher.Pather{IA: local, MTU: 1400, NextHopper: nextHopper{missing}, RevCache: rc,
+			// revocation lookups fail for some interfaces without an active revocation: a path with an
+			// active revocation on another interface must still not be returned
+			failing := map[string]bool{}
+			var failWords []string
+			if r.Chance(50) {
+				for _, x := range allIfs {
+					k := fmt.Sprintf("%s#%d", iaStr(x.ia), x.id)
+					if !active[k] && !failing[k] && r.Chance(35) {
+						failing[k] = true
+						failWords = append(failWords, k)
+					}
+				}
+			}
+			p := &segfetcher.Pather{IA: local, MTU: 1400, NextHopper: nextHopper{missing}, RevCache: faultyRevCache{rc, failing},
 				Fetcher: &segfetcher.Fetcher{Resolver: rs}, Splitter: sp}
 			t0 := time.Now()
 			var paths []snet.Path
@@ -518,7 +547,8 @@ func main() {
 			}
 			op := fmt.Sprintf("gp %s %s %d %s %s %s %s %d %d %s", iaStr(local), iaStr(dst), t0.UnixMilli(), iasWord(ups.FirstIAs()),
 				iasWord(cores.FirstIAs()), lst(revWords), lst(nonh), b2(serr != nil), b2(rs.fail), strings.Join(tbl, " "))
-			replay := map[string]any{"local": local.String(), "dst": dst.String(), "revoked": revWords, "op": op}
+			sort.Strings(failWords)
+			replay := map[string]any{"local": local.String(), "dst": dst.String(), "revoked": revWords, "revocation_lookup_fails_for": failWords, "op": op}
 			var out, tag string
 			switch {
 			case !okc:
@@ -575,7 +605,7 @@ func main() {
 			for _, sp := range paths {
 				md := sp.Metadata()
 				rp := map[string]any{"local": local.String(), "dst": dst.String(), "path": ifsKey(md.Interfaces),
-					"expiry": md.Expiry.UTC().String(), "revoked": revWords}
+					"expiry": md.Expiry.UTC().String(), "revoked": revWords, "revocation_lookup_fails_for": failWords}
 				if sp.Source() != local || len(md.Interfaces) == 0 || md.Interfaces[0].IA != local {
 					e.Violate("C30/start", "returned path does not start at the local AS", rp)
 				}
